@@ -81,7 +81,7 @@ def r18a(model: Model, rr: RuleResult):
     if "master.output_ufo" in " ".join(norm(n) for n in walk_body(gfi)) and any(isinstance(n, ast.If) and "is_vf" in norm(n.test) for n in walk_body(gfi)):
         rr.ok("_glyphmap_file distinguishes masters by output_ufo when is_vf")
     else:
-        rr.bad(gfi, gfi.node, "glyphmap file name does not distinguish masters of a variable font", construct="_glyphmap_file")
+        rr.bad_shape(gfi, gfi.node, "glyphmap file name does not distinguish masters of a variable font", construct="_glyphmap_file")
     # glyphmap edges: one per (config, master) with that master's inputs
     rfi = model.func("nanoemoji", "_run")
     okloop = False
@@ -101,7 +101,7 @@ def r18a(model: Model, rr: RuleResult):
     if imp is not None and "m.output_ufo for m in font_config.masters" in norm(imp):
         rr.ok("variable-font edge lists every master's UFO as implicit input")
     else:
-        rr.bad(wfi, wfi.node, "variable-font edge does not depend on every master's UFO", construct=f"write_variable_font_build implicit={short(imp)}")
+        rr.bad_shape(wfi, wfi.node, "variable-font edge does not depend on every master's UFO", construct=f"write_variable_font_build implicit={short(imp)}")
 
 
 @RULES.rule("C18", "R18b", "designspace: UFO, style name and location of a source come from the same master; axis ranges from positions of the same axis", floor=7)
@@ -109,6 +109,17 @@ def r18b(model: Model, rr: RuleResult):
     fi = model.func("write_variable_font", "main")
     cfg = cfg_of(fi)
     loops = [st for st in walk_body(fi) if isinstance(st, ast.For) and norm(st.iter) == "font_config.masters"]
+    # positive evidence: masters paired positionally with a list that comes from the command line (whose order is whatever the driver listed)
+    for st in walk_body(fi):
+        if isinstance(st, ast.For) and isinstance(st.iter, ast.Call) and norm(st.iter.func) in ("zip", "enumerate") and any("font_config.masters" == norm(a) for a in st.iter.args):
+            others = [a for a in st.iter.args if norm(a) != "font_config.masters"]
+            for o in others:
+                names, _ = expr_closure(cfg, cfg.node_for(st), o)
+                if names & {"argv", "ufos"} or any(p in names for p in fi.params):
+                    rr.bad(fi, st, f"masters are paired by position with {short(o)} (taken from the command line): the UFO opened for a master is whichever file the driver happened to "
+                           f"list at that position, not that master's own output_ufo - with the default master listed first by the driver and second in the config, artwork and "
+                           f"locations are mis-paired", construct=f"write_variable_font.main: zip(font_config.masters, {short(o)})")
+                    return
     if len(loops) != 1 or not isinstance(loops[0].target, ast.Name):
         raise AnalysisError("write_variable_font.main: loop over font_config.masters not found")
     lp = loops[0]
@@ -148,7 +159,7 @@ def r18b(model: Model, rr: RuleResult):
     if ok:
         rr.ok("location = {axis_names[p.axisTag]: p.position for p in master.position}")
     else:
-        rr.bad(fi, lp, "location is not built from this master's (axisTag -> position) pairs through the axis-name table", construct="location construction")
+        rr.bad_shape(fi, lp, "location is not built from this master's (axisTag -> position) pairs through the axis-name table", construct="location construction")
     an = [st for st in walk_body(fi) if isinstance(st, ast.Assign) and norm(st.targets[0]) == "axis_names"]
     if an and isinstance(an[0].value, ast.DictComp) and norm(an[0].value.key).endswith(".axisTag") and norm(an[0].value.value).endswith(".name"):
         rr.ok("axis_names maps axisTag -> name")
@@ -166,7 +177,7 @@ def r18b(model: Model, rr: RuleResult):
         if key in kws and norm(kws[key]) == want:
             rr.ok(f"axis {key} = {want}")
         else:
-            rr.bad(fi, call, f"axis descriptor {key} is not {want}", construct=f"axis_defs {key}={short(kws.get(key))}")
+            rr.bad_shape(fi, call, f"axis descriptor {key} is not {want}", construct=f"axis_defs {key}={short(kws.get(key))}")
     for key, fn in (("minimum", "min"), ("maximum", "max")):
         v = kws.get(key)
         good = False
@@ -179,7 +190,7 @@ def r18b(model: Model, rr: RuleResult):
         if good:
             rr.ok(f"axis {key} = {fn}(positions of the same axis over all masters)")
         else:
-            rr.bad(fi, call, f"axis {key} is not {fn} over positions filtered on the same axis tag", construct=f"axis_defs {key}={short(v, 100)}")
+            rr.bad_shape(fi, call, f"axis {key} is not {fn} over positions filtered on the same axis tag", construct=f"axis_defs {key}={short(v, 100)}")
     sv = find_calls(fi, "save")
     if sv and norm(sv[0].args[0]) == "font_config.output_file":
         rr.ok("variable font saved to font_config.output_file")
@@ -217,7 +228,7 @@ def r18c(model: Model, rr: RuleResult):
     if good:
         rr.ok("default(): returns the master at every axis default, raises when there is none")
     else:
-        rr.bad(dfi, dfi.node, "default() does not select the master sitting at every axis default / does not raise when none does", construct="FontConfig.default")
+        rr.bad_shape(dfi, dfi.node, "default() does not select the master sitting at every axis default / does not raise when none does", construct="FontConfig.default")
 
 
 @RULES.rule("C18", "R18d", "axis defaults and master positions reach the designspace without lossy conversion", floor=2)
